@@ -216,6 +216,19 @@ def _main(prop: str, tier: str, seed: int, a: Any) -> int:
 	bounded: list[dict[str, Any]] = []
 	machinery: list[str] = []
 	# ---- failed obligations
+	n_last_resort = 0
+
+	def last_resort_still_open(r: ObResult) -> bool:
+		"""One more attempt, alone, with four times the budgets: a time-out under load must not turn into a reported violation."""
+		from .smt import discharge_text
+		res = discharge_text(r.text, r.ob.want, 4 * z3_ms, 4 * cvc5_ms)
+		if res.verdict == 'proved':
+			r.ok = True
+			r.res = res
+			return False
+		if res.verdict == 'refuted':
+			r.res = res
+		return True
 	by_func_done: set[str] = set()
 	for r in rep.results:
 		if r.ok:
@@ -259,8 +272,11 @@ def _main(prop: str, tier: str, seed: int, a: Any) -> int:
 		elif r.res.verdict == 'refuted' and (key in baseline or (r.ob.kind.startswith('raises') and f'{strip_inst(r.ob.func)}|raises-clause' in baseline)):
 			violations.append(Violation(prop, f'obligation discharged on the unchanged tree now has a counter-model: {r.ob.clause}', r.ob.func, r.ob.name, r.ob.clause, None,
 				native.detail if native else 'model not concretisable', (json.dumps(jsonable(r.res.model))[:1500] if r.res.model else '') + '\n' + r.res.detail[:1500], key))
-		elif r.res.verdict == 'unknown' and key in baseline and changed_sources(prop):
-			# discharged on the committed baseline, no longer discharged (after the serial retry) now that the source text differs: reported, marked as not refuted
+		elif r.res.verdict == 'unknown' and key in baseline and changed_sources(prop) and n_last_resort < 6:
+			# discharged on the committed baseline, no longer discharged (after the serial retry and one more attempt alone with four-fold budgets) now that the source text differs: reported, marked as not refuted
+			n_last_resort += 1
+			if not last_resort_still_open(r):
+				continue
 			violations.append(Violation(prop, f'obligation discharged on the unchanged tree is no longer discharged after the change of {", ".join(changed_sources(prop))[:200]} (no counter-model: not refuted): {r.ob.clause}',
 				r.ob.func, r.ob.name, r.ob.clause, None, 'no model', r.res.detail[:1500], key))
 		else:
